@@ -264,10 +264,13 @@ theorem return_without_gosub (f : Finder) (ot : Option Target) (ev : Ev) (s : St
   · simp [stepInstr, h]
   · intro hh; simp [stepInstr, h, raise, hh]
 
-/-- a history of GOSUBs (with the address of the GOSUB instruction) and RETURNs -/
+/-- a history of GOSUBs (with the address of the GOSUB instruction), RETURNs, and the cuts made when a
+procedure returns or RESUME label leaves the procedures in progress (`return_marks`) -/
 inductive Op where
   | gosub (addr : Nat)
   | ret
+  /-- keep the `n` oldest pending GOSUBs -/
+  | cut (n : Nat)
   deriving Repr, DecidableEq
 
 /-- the GOSUBs not yet returned from after a history, most recent first (a RETURN with nothing
@@ -276,12 +279,7 @@ def pendingFrom : List Nat → List Op → List Nat
   | st, [] => st
   | st, .gosub a :: h => pendingFrom (a :: st) h
   | st, .ret :: h => pendingFrom st.tail h
-
-/-- histories in which every RETURN answers a GOSUB of the same history, and vice versa -/
-inductive Balanced : List Op → Prop
-  | nil : Balanced []
-  | wrap (a : Nat) {w : List Op} : Balanced w → Balanced (.gosub a :: w ++ [.ret])
-  | app {u v : List Op} : Balanced u → Balanced v → Balanced (u ++ v)
+  | st, .cut n :: h => pendingFrom (cut st n) h
 
 theorem pendingFrom_append (st : List Nat) (u v : List Op) :
     pendingFrom st (u ++ v) = pendingFrom (pendingFrom st u) v := by
@@ -289,20 +287,44 @@ theorem pendingFrom_append (st : List Nat) (u v : List Op) :
   | nil => rfl
   | cons o u ih => cases o <;> simp [pendingFrom, ih]
 
-theorem pendingFrom_balanced {w : List Op} (hw : Balanced w) : ∀ st, pendingFrom st w = st := by
+/-- histories, started with `n` GOSUBs pending, in which every RETURN answers a GOSUB of the same
+history and vice versa; a procedure call inside may do anything that leaves the caller's pending
+GOSUBs alone: its return cuts the stack back to the height at the call -/
+inductive Balanced : Nat → List Op → Prop
+  | nil (n : Nat) : Balanced n []
+  | wrap (n a : Nat) {w : List Op} : Balanced (n + 1) w → Balanced n (.gosub a :: w ++ [.ret])
+  | app {n : Nat} {u v : List Op} : Balanced n u → Balanced n v → Balanced n (u ++ v)
+  | call {n : Nat} {w : List Op} :
+      (∀ st : List Nat, st.length = n → ∃ pre, pendingFrom st w = pre ++ st) → Balanced n (w ++ [.cut n])
+
+theorem pendingFrom_balanced {n : Nat} {w : List Op} (hw : Balanced n w) :
+    ∀ st : List Nat, st.length = n → pendingFrom st w = st := by
   induction hw with
-  | nil => intro st; rfl
-  | wrap a _ ih =>
-    intro st
+  | nil n => intro st _; rfl
+  | wrap n a _ ih =>
+    intro st hst
     show pendingFrom st (.gosub a :: (_ ++ [.ret])) = st
-    simp [pendingFrom, pendingFrom_append, ih]
-  | app _ _ ihu ihv => intro st; rw [pendingFrom_append, ihu, ihv]
+    simp only [pendingFrom, pendingFrom_append]
+    rw [ih (a :: st) (by simp [hst])]
+    rfl
+  | app _ _ ihu ihv => intro st hst; rw [pendingFrom_append, ihu st hst, ihv st hst]
+  | call hpre =>
+    intro st hst
+    obtain ⟨pre, hp⟩ := hpre st hst
+    rw [pendingFrom_append, hp]
+    simp only [pendingFrom, cut, List.length_append, hst]
+    rw [show pre.length + _ - _ = pre.length by omega]
+    exact List.drop_left
 
 /-- the history entry an instruction contributes -/
 def opOf (i : Instr) (s : St) : Option Op :=
   match i with
   | .goSub _ => some (.gosub s.pc)
   | .ret _ => some .ret
+  | .popRet => (match s.marks with
+    | m :: _ => some (.cut m)
+    | [] => none)
+  | .resumeLabel _ => if s.errAddr.isSome then s.marks.getLast?.map .cut else none
   | _ => none
 
 /-- the history entry a machine step contributes -/
@@ -324,7 +346,7 @@ theorem raise_gosub {f : Finder} {s s' : St} {c : Int} (h : raise f s c = .cont 
     | none => simp [hn] at h
     | some n => simp [hn] at h; subst h; rfl
 
-theorem resumeWith_gosub {f : Finder} {s s' : St} {t : Nat → Option Nat} {lv : Bool} (h : resumeWith f s t lv = .cont s') :
+theorem resumeWith_gosub {f : Finder} {s s' : St} {t : Nat → Option Nat} (h : resumeWith f s t false = .cont s') :
     s'.gosub = s.gosub := by
   unfold resumeWith takeErr at h
   cases he : s.errAddr with
@@ -358,7 +380,22 @@ theorem stepInstr_gosub_stack {f : Finder} {i : Instr} {ev : Ev} {s s' : St}
       | some t => cases t <;> simp [tgt] at h; subst h; simp [opOf, pendingFrom]
   case resume => exact resumeWith_gosub h
   case resumeNext => exact resumeWith_gosub h
-  case resumeLabel t => exact resumeWith_gosub h
+  case resumeLabel t =>
+    simp only [stepInstr, resumeWith, takeErr] at h
+    cases he : s.errAddr with
+    | none =>
+      simp only [he] at h
+      have := raise_gosub h
+      simp [opOf, he, pendingFrom]
+      exact this
+    | some a =>
+      simp only [he] at h
+      cases ht : tgt t with
+      | none => simp [ht] at h
+      | some n =>
+        simp [ht] at h
+        subst h
+        cases hm : s.marks.getLast? <;> simp [opOf, he, hm, pendingFrom, leaveProcs]
   case jump t => cases t <;> simp [stepInstr, tgt, goto] at h; subst h; rfl
   case jumpIfFalse t =>
     cases ev with
@@ -374,7 +411,9 @@ theorem stepInstr_gosub_stack {f : Finder} {i : Instr} {ev : Ev} {s s' : St}
     simp only [stepInstr] at h
     cases hr : s.ret with
     | nil => simp [hr] at h
-    | cons a rest => simp [hr] at h; subst h; rfl
+    | cons a rest =>
+      simp [hr] at h; subst h
+      cases hm : s.marks <;> simp [opOf, hm, pendingFrom]
   all_goals
     first
     | (simp only [stepInstr] at h; injection h with h; subst h; rfl)
@@ -477,7 +516,7 @@ theorem gosub_return_lifo {code : Code} {f : Finder} (evs : List Ev) (s0 : St)
     (pre mid post : List St) (g r nxt : St)
     (htr : (run code f evs s0).1 = pre ++ g :: (mid ++ r :: nxt :: post))
     (hg : opAt code g = some (.gosub g.pc))
-    (hmid : Balanced (opsOf code mid))
+    (hmid : Balanced (g.gosub.length + 1) (opsOf code mid))
     (hr : ∃ ip, code[r.pc]? = some ip ∧ ip.instr = .ret none) :
     nxt.pc = g.pc + 1 ∧ nxt.gosub = g.gosub := by
   have hgs : g.gosub = pendingFrom s0.gosub (opsOf code pre) := run_gosub_stack evs s0 pre _ g htr
@@ -487,7 +526,7 @@ theorem gosub_return_lifo {code : Code} {f : Finder} (evs : List Ev) (s0 : St)
   have hrs' : r.gosub = g.pc :: g.gosub := by
     rw [hrs, hgs]
     simp only [opsOf, List.filterMap_append, List.filterMap_cons, hg, pendingFrom_append, pendingFrom]
-    exact pendingFrom_balanced hmid _
+    exact pendingFrom_balanced hmid _ (by rw [hgs]; rfl)
   obtain ⟨ev, hstep⟩ := run_consecutive evs s0 (pre ++ g :: mid) post r nxt (by rw [htr]; simp)
   obtain ⟨ip, hip, hinstr⟩ := hr
   unfold step at hstep
@@ -498,8 +537,13 @@ theorem gosub_return_lifo {code : Code} {f : Finder} (evs : List Ev) (s0 : St)
   subst hstep
   exact ⟨rfl, rfl⟩
 
-example : Balanced [.gosub 3, .gosub 9, .ret, .gosub 12, .ret, .ret] :=
-  Balanced.wrap 3 (Balanced.app (Balanced.wrap 9 Balanced.nil) (Balanced.wrap 12 Balanced.nil))
+example : Balanced 0 [.gosub 3, .gosub 9, .ret, .gosub 12, .ret, .ret] :=
+  Balanced.wrap 0 3 (Balanced.app (Balanced.wrap 1 9 (Balanced.nil 2)) (Balanced.wrap 1 12 (Balanced.nil 2)))
+
+/-- a procedure called between a GOSUB and its RETURN may leave its own GOSUBs pending (here 20 and 30,
+the second one answered): its return forgets them -/
+example : Balanced 0 [.gosub 3, .gosub 20, .gosub 30, .ret, .cut 1, .ret] :=
+  Balanced.wrap 0 3 (Balanced.call (w := [.gosub 20, .gosub 30, .ret]) (fun st _ => ⟨[20], rfl⟩))
 
 
 /-! ### ON ERROR, the error registers, RESUME -/
@@ -575,14 +619,15 @@ def resumed (s : St) (n : Nat) : St := { s with errCode := none, errAddr := none
   statement `e` belongs to),
 * `RESUME NEXT` at the least recorded statement address `> e` (the first instruction of the statement
   that follows), provided the binary search names the last position of `e` (see `finder_next`),
-* `RESUME label` at the label, leaving the procedures in progress (the return stack is emptied);
+* `RESUME label` at the label, leaving the procedures in progress (`leaveProcs`: the return stack is
+  emptied, the GOSUBs pending inside them are forgotten);
 each clears the error address and code, pops one handler context and touches nothing else. -/
 theorem resume_targets (f : Finder) (hs : f.addrs.Pairwise (· ≤ ·)) (hok : f.Ok) (ev : Ev) (s : St) {e : Nat}
     (he : s.errAddr = some e) :
     ((∃ x ∈ f.addrs, x ≤ e) → ∃ n, IsGreatestLE f.addrs e n ∧ stepInstr f .resume ev s = .cont (resumed s n)) ∧
     (LastOcc f.addrs e (f.bs e) → (∃ x ∈ f.addrs, e < x) →
       ∃ n, IsLeastGT f.addrs e n ∧ stepInstr f .resumeNext ev s = .cont (resumed s n)) ∧
-    (∀ l, stepInstr f (.resumeLabel (.addr l)) ev s = .cont { resumed s l with ret := [] }) := by
+    (∀ l, stepInstr f (.resumeLabel (.addr l)) ev s = .cont (leaveProcs (resumed s l))) := by
   refine ⟨fun hex => ?_, fun hlast hex => ?_, fun l => ?_⟩
   · obtain ⟨n, hn, hg⟩ := (finder_current hs (hok e)).1 hex
     have : f.current e = some n := hn
@@ -660,7 +705,8 @@ theorem resumeWith_inv {f : Finder} {s s' : St} {t : Nat → Option Nat} {lv : B
     simp only [he] at h
     cases ht : t a with
     | none => simp [ht] at h
-    | some n => simp [ht] at h; subst h; intro h1; simp at h1
+    | some n =>
+      cases lv <;> simp [ht] at h <;> subst h <;> intro h1 <;> simp [leaveProcs] at h1
 
 theorem stepInstr_inv {f : Finder} {i : Instr} {ev : Ev} {s s' : St} (hinv : ErrInv s)
     (h : stepInstr f i ev s = .cont s') : ErrInv s' := by
